@@ -368,6 +368,35 @@ def check_floats(ctx: Ctx) -> None:
     res.sig("floats-specials", len(specials))
 
 
+def scribble(obj: Any, depth: int = 0) -> int:
+    """Modify every mutable container reachable from a model instance in place; returns how many were touched."""
+    n = 0
+    if depth > 3 or not dataclasses.is_dataclass(obj):
+        return 0
+    for f in dataclasses.fields(obj):
+        try:
+            v = getattr(obj, f.name)
+        except AttributeError:
+            continue
+        if isinstance(v, dict):
+            v["__scribble__"] = "x"
+            n += 1
+        elif isinstance(v, list):
+            for item in v:
+                n += scribble(item, depth + 1)
+            v.append("__scribble__")
+            n += 1
+        elif isinstance(v, (set, bytearray)):
+            n += 1
+            if isinstance(v, set):
+                v.add("__scribble__")
+            else:
+                v.extend(b"!!")
+        else:
+            n += scribble(v, depth + 1)
+    return n
+
+
 def process_history(ctx: Ctx) -> None:
     """What happened earlier in the same process must not matter for a conversion: odd shards first instantiate the model BASE classes and
     a few concrete classes in an unusual order (per-class caches keyed through inheritance, lazily built tables, ... would be seeded wrongly)."""
@@ -440,6 +469,23 @@ def shard(ctx: Ctx) -> None:
                         res.violation(f"C14/round-trip/{m.__name__}", f"[{label}] from_dict(to_dict(x)) != x for {m.__name__}", {"pair": [w.__name__, m.__name__], "label": label})
                 except Exception as e:  # noqa: BLE001
                     res.violation(f"C14/round-trip-raised/{m.__name__}", f"[{label}] to_dict/from_dict raised {e!r}", {"pair": [w.__name__, m.__name__], "label": label})
+            # conversions must be independent of what a consumer did to EARLIER results: scribble over every mutable container of one result
+            # (as an application that post-processes e.g. service data in place does), then convert the same wire message again
+            if not found and (label.startswith("random") is False or res.evaluations % 7 == 0):
+                try:
+                    n_mut = scribble(m.from_pb(msg))
+                except Exception:  # noqa: BLE001
+                    n_mut = 0
+                if n_mut:
+                    res.count("aliasing_probes(result scribbled, converted again)")
+                    again = compare_model(ctx, conv, w, m, msg, label)
+                    for key, what in again[:2]:
+                        res.violation(key.replace("C14/", "C14/shared-mutable-state/", 1), f"after an earlier result's containers were modified in place: {what}",
+                                      {"pair": [w.__name__, m.__name__], "label": label, "msg": msg.SerializeToString().hex()[:400]})
+                    # and an EMPTY message of the same type must still convert to empty containers
+                    for key, what in compare_model(ctx, conv, w, m, w(), "empty-after-scribble")[:2]:
+                        res.violation(key.replace("C14/", "C14/shared-mutable-state/", 1), f"empty {w.__name__} after an earlier result was modified in place: {what}",
+                                      {"pair": [w.__name__, m.__name__], "label": "empty-after-scribble"})
             if res.evaluations % 5000 == 1:
                 res.sample({"pair": f"{w.__name__}->{m.__name__}", "case": label, "wire": str(msg)[:160]})
     if conv.unmodelled:
